@@ -25,9 +25,9 @@ func (g *gen) atom(c ectx) *Exp {
 		switch g.r.Intn(7) {
 		case 0:
 			return g.konst(-2, 6)
-		case 1, 2:
+		case 1, 2, 3:
 			return &Exp{K: "param", I: g.r.Intn(2)}
-		case 3, 4:
+		case 4:
 			return &Exp{K: "field", I: g.r.Intn(g.nf)}
 		case 5:
 			if c.local {
@@ -121,7 +121,7 @@ func (g *gen) body(ent, f int, callees []int) []*Stmt {
 		switch g.r.Intn(8) {
 		case 0, 1, 2:
 			return &Stmt{K: "assign", I: g.r.Intn(g.nf), E: g.intExp(c, 2)}
-		case 3:
+		case 3, 6:
 			return &Stmt{K: "local", I: g.r.Intn(2), E: g.intExp(c, 2)}
 		case 4, 5:
 			if len(callees) > 0 {
@@ -321,6 +321,18 @@ func (g *gen) program() *Prog {
 			continue
 		}
 		d := &FDecl{Name: f, Params: [2]string{"a", "b"}, HasBody: true}
+		// body locals named like parameters of inherited declarations of f (any level of the chain)
+		var names []string
+		for _, i := range eff {
+			if roles[f][i].declares {
+				names = append(names, fmt.Sprintf("p%d", i), fmt.Sprintf("q%d", i))
+			}
+		}
+		if len(names) >= 2 && g.r.Chance(5, 6) {
+			x := g.r.Intn(len(names))
+			y := (x + 1 + g.r.Intn(len(names)-1)) % len(names)
+			d.Locals = [2]string{names[x], names[y]}
+		}
 		if g.r.Chance(4, 5) {
 			d.Pre = g.conds(ectx{}, 0, f, 1)
 			d.Post = g.conds(ectx{result: true, before: true}, 0, f, 2)
